@@ -372,10 +372,20 @@ def _direction_sensitive_dt_reads(m):
     """statements of the step loop that read self.dt in a way whose outcome depends on its sign: not under abs(),
     not compared with zero, not in the progress-bar bookkeeping."""
     out = []
+    # the progress bar, by role: the local(s) bound to the result of a tqdm(...) call; stores into its attributes and calls on it are display only
+    bars = {t.id for st in walk_no_nested(m.fn) if isinstance(st, ast.Assign) and isinstance(st.value, ast.Call) and (fname(st.value) or "").split(".")[-1] in ("tqdm", "trange")
+            for t in st.targets if isinstance(t, ast.Name)}
+
+    def bar_only(st):
+        tg = st.targets if isinstance(st, ast.Assign) else ([st.target] if isinstance(st, ast.AugAssign) else [])
+        if tg and all(isinstance(t, ast.Attribute) and isinstance(t.value, ast.Name) and t.value.id in bars for t in tg):
+            return True
+        return isinstance(st, ast.Expr) and isinstance(st.value, ast.Call) and isinstance(st.value.func, ast.Attribute) and \
+            isinstance(st.value.func.value, ast.Name) and st.value.func.value.id in bars
     for st in walk_no_nested(m.loop):
         if not isinstance(st, (ast.Assign, ast.AugAssign, ast.Expr, ast.Return)):
             continue
-        if any(isinstance(a, ast.If) and "tqdm_progress_bar" in src(a.test) for a in ancestors(st)):
+        if bar_only(st):
             continue
         val = st.value if not isinstance(st, ast.Expr) else st.value
         for x in ast.walk(val):
